@@ -10,7 +10,8 @@ LEVEL = 'fault_enumeration'
 EXHAUSTIVE = False
 RULE = (
     'A deterministic virtual-time scenario (idle bus, backlog, handler mid-flight, handler awaiting a child on another '
-    'bus, forwarding, actors that keep dispatching to the bus afterwards) plus an injection - stop(), stop(timeout=T), '
+    'bus, forwarding, handlers running longer than the 15 s slow-handler monitor, actors that keep dispatching to the bus '
+    'afterwards) plus an injection - stop(), stop(timeout=T), '
     'stop(clear=True) on a generated bus, or cancel-all-tasks-and-wait as asyncio.run() does at exit - fired before loop '
     'iteration k. A pilot run of the same scenario gives the iteration count K; Hypothesis draws scenario, kind and k '
     '(per-mille of K), and a fixed family of base scenarios is enumerated over EVERY k <= K x every injection kind x '
@@ -21,7 +22,7 @@ RULE = (
 )
 ASSUMPTIONS = ['virtual time: crash points are loop iterations of a deterministic run', 'stop() on a never-started bus is a documented no-op', 'handlers already running when stop() returns may finish; only new starts are judged']
 
-P = Profile(max_buses=3, par=0.15, fwd=0.25, maxdepth=[1, 2], wild=0.15, raises=0.05, max_actors=3, actor_ops=['disp', 'disp', 'burst', 'dispany', 'sleep', 'sleep', 'await', 'yield'], max_actor_ops=7, durs=[0.01, 0.05, 0.1, 0.11, 0.25, 0.5], hist=[None, 50], warm=[True, False])
+P = Profile(max_buses=3, par=0.15, fwd=0.25, maxdepth=[1, 2], wild=0.15, raises=0.05, max_actors=3, actor_ops=['disp', 'disp', 'burst', 'dispany', 'sleep', 'sleep', 'await', 'yield'], max_actor_ops=7, durs=[0.01, 0.05, 0.1, 0.11, 0.25, 0.5, 0.5, 16.0, 20.0], hist=[None, 50], warm=[True, False])
 
 KINDS = [
     {'kind': 'stop', 'timeout': None, 'clear': False},
@@ -74,11 +75,16 @@ BASE = [
                   {'bus': 2, 'pat': '*', 'kind': 'async', 'prog': [['sleep', 0.11]], 'ret': 'idx'}],
      'actors': [[['disp', 0, 0], ['sleep', 0.3], ['disp', 0, 0], ['disp', 1, 1], ['sleep', 0.6], ['disp', 2, 0], ['disp', 0, 1]]],
      'maxdepth': 2, 'cap': 60, 'warm': True},
+    # a handler that has been running for longer than the 15 s slow-handler monitor, a second handler of the same event, backlog
+    {'buses': [{'par': False, 'hist': None, 'rank': 1}], 'fwd': [],
+     'handlers': [{'bus': 0, 'pat': 0, 'kind': 'async', 'prog': [['sleep', 16.0], ['sleep', 1.0]], 'ret': 'idx'}, {'bus': 0, 'pat': 0, 'kind': 'async', 'prog': [['sleep', 0.1]], 'ret': 'idx'}],
+     'actors': [[['disp', 0, 0], ['disp', 0, 0], ['sleep', 18.0], ['disp', 0, 0]]],
+     'maxdepth': 1, 'cap': 20, 'warm': False},
 ]
 
 
 def enumerate_cases(tier, seed):
-    bases = BASE[:1] if tier == 'quick' else BASE
+    bases = [BASE[0], BASE[3]] if tier == 'quick' else BASE
     for bi, base in enumerate(bases):
         pilot = run_scenario(dict(base))
         K = pilot['iters'] - pilot['iter0']
